@@ -212,6 +212,7 @@ fn exec_op(
                     }
                 },
             };
+            run.seq.fetch_add(1, Ordering::SeqCst);
             match result {
                 Err(why) => {
                     end_op(run, tid, idx, start, OpResult::Skipped(why), None, None);
@@ -335,6 +336,49 @@ fn exec_op(
         }
         Op::LendSession { .. } => crate::lending::exec_op(run, tid, idx, op),
         Op::Own { .. } => crate::owning::exec_op(run, tid, idx, op),
+        Op::DirectReal { slot, m, x, y } => {
+            let mock = mock_of(run, *slot);
+            let start = begin_op(run, tid, idx, None, mock);
+            let first_call = run.log(|l| l.calls.len() as u32);
+            let res = match m.info().recv {
+                Recv::Mut => match take_unique(run, *slot) {
+                    Err(e) => OpResult::Skipped(e),
+                    Ok(mut u) => {
+                        let r = catch_unwind(AssertUnwindSafe(|| direct_real_mut(&mut u, *m, *x, *y)));
+                        put_slot(run, *slot, Arc::new(u));
+                        match r {
+                            Ok(val) => OpResult::Value(val),
+                            Err(p) => panic_text(p.as_ref()),
+                        }
+                    }
+                },
+                _ => match get_slot(run, *slot) {
+                    None => OpResult::Skipped("slot empty".into()),
+                    Some(h) => {
+                        let r = catch_unwind(AssertUnwindSafe(|| direct_real(&h, *m, *x, *y)));
+                        release_handle(run, *slot, h);
+                        match r {
+                            Ok(val) => OpResult::Value(val),
+                            Err(p) => panic_text(p.as_ref()),
+                        }
+                    }
+                },
+            };
+            let _ = first_call;
+            end_op(run, tid, idx, start, res, None, None);
+            Ok(())
+        }
+        Op::AsyncGroup { .. } => crate::asyncworld::exec_op(run, tid, idx, op),
+        Op::AwaitSeq { n } => {
+            let start = begin_op(run, tid, idx, None, 0);
+            let mut spins = 0u32;
+            while run.seq.load(Ordering::SeqCst) < *n as u64 && spins < 5000 {
+                run.sched.yield_now(tid as usize, SITE_OP);
+                spins += 1;
+            }
+            end_op(run, tid, idx, start, OpResult::Done, None, None);
+            Ok(())
+        }
     }
 }
 
@@ -416,6 +460,7 @@ pub fn run(scn: &Scenario) -> RunResult {
         slots: (0..N_SLOTS).map(|_| Mutex::new(None)).collect(),
         slot_mock: (0..N_SLOTS).map(|_| AtomicU64::new(0)).collect(),
         tracker: crate::values::Tracker::new(),
+        seq: AtomicU64::new(0),
     });
     let build_error: Arc<Mutex<Option<String>>> = Arc::new(Mutex::new(None));
     let prelude = scn.knob("prelude").unwrap_or(0).max(0) as usize;
